@@ -38,17 +38,45 @@ def kind_of(name: str) -> str:
     return index()["keys"][name]["kind"]
 
 
+_ROT = {"dir": None, "rng": None, "fraction": 0.0, "n": 0, "handed_out": 0}
+ROT_SLOTS = 12
+
+
+def enable_rotation(workdir: str, seed: str, fraction: float) -> None:
+    """From now on a fraction of the paths handed out are ROTATING slots: ROT_SLOTS file names per form in a folder of this
+    process, each holding another key every time it comes round - what a project looks like whose keys were replaced
+    under the same names and which the same process builds again.  A case must not hold more than ROT_SLOTS paths of one
+    form at a time (none does: at most four roots, an ISK and a signer)."""
+    import random
+
+    _ROT.update(dir=os.path.join(workdir, "rotating_pki"), rng=random.Random(seed), fraction=fraction)
+    os.makedirs(_ROT["dir"], exist_ok=True)
+
+
+def rotation_stats() -> int:
+    return _ROT["handed_out"]
+
+
 def path(name: str, what: str = "priv", fmt: str = "pem") -> str:
     """what: priv | pub | cert | nonca ; fmt: pem | der."""
     suffix = {"priv": "", "pub": ".pub", "cert": ".crt", "nonca": ".nonca.crt"}[what]
     p = os.path.join(DIR, f"{name}{suffix}.{fmt}")
     if not os.path.exists(p):
         raise FileNotFoundError(p)
+    if _ROT["dir"] and _ROT["rng"].random() < _ROT["fraction"]:
+        import shutil
+
+        _ROT["n"] += 1
+        _ROT["handed_out"] += 1
+        slot = os.path.join(_ROT["dir"], f"slot{_ROT['n'] % ROT_SLOTS}{suffix}.{fmt}")
+        shutil.copyfile(p, slot)
+        return slot
     return p
 
 
 def data(name: str, what: str = "priv", fmt: str = "pem") -> bytes:
-    with open(path(name, what, fmt), "rb") as f:
+    suffix = {"priv": "", "pub": ".pub", "cert": ".crt", "nonca": ".nonca.crt"}[what]
+    with open(os.path.join(DIR, f"{name}{suffix}.{fmt}"), "rb") as f:
         return f.read()
 
 
